@@ -202,6 +202,9 @@ def run_delta(ctx, p):
             E = ref.f64(ref.exp_twist_ld(d_))
             res = md(b.tr2delta(E), d_)
             tol = 2 * nd * nd + 1e-15
+            # ... and with the library's own logarithm of the same matrix, taken after the call
+            lg = np.asarray(b.trlog(E, twist=True), dtype=np.float64)
+            res = max(res, md(b.tr2delta(E), lg))
         elif which == 'Delta_class':
             X = sm.SE3.Delta(d_)
             ok = type(X) is sm.SE3 and len(X) == 1 and ref.hom_residual(X.A) <= 1e-9
